@@ -857,9 +857,9 @@ func (c *FnCtx) convert(fr *frame, st *State, t *ssa.Convert) Val {
 		// []byte(s): fresh object holding the bytes of s
 		el := to.Underlying().(*types.Slice).Elem()
 		ref := c.alloc(st, types.NewArray(el, 0), true)
-		row := c.declare("row", "(Array Int Int)")
-		c.assumeRaw(fmt.Sprintf("(forall ((i Int)) (! (=> (and (<= 0 i) (< i (slen %s))) (= (select %s i) (sat %s i))) :pattern ((select %s i))))", x.S, row, x.S, row))
-		c.heapWriteRow(st, heapKey(el, nil), "Int", ref, row)
+		// the object's cells are exactly the string's bytes (cells past the
+		// length are never reachable through the slice)
+		c.heapWriteRow(st, heapKey(el, nil), "Int", ref, sx("strrow", x.S))
 		return Val{K: kSlice, T: to, Root: el, Ref: ref, Off: "0", Len: sx("slen", x.S), Cap: sx("slen", x.S)}
 	case fk == kSlice && tk == kStr:
 		el := from.Underlying().(*types.Slice).Elem()
